@@ -11,7 +11,7 @@ mode "field"          input_value is a price field (or the indicator takes the c
 In the chain modes the input series is read back from the candles after the run, so the reference does not
 depend on the companion being right.
 
-Rounding budgets (u = 0.5*10^-round_value for the visible reading, us = max(u, 0.5e-4) for helper indicator
+Rounding budgets (u = 0.5*10^-round_value for the visible reading, us = 0.5e-4 for helper indicator
 series, FN = 1e-10 relative float noise; `V` arithmetic in indref propagates them):
   SMA   global: k*u after k readings (sliding update of a rounded value walks); step: |r[t]-r[t-1]-(x[t]-x[t-p])/p| <= 2u
   EMA   step: |r[t] - (a x[t] + (1-a) r[t-1])| <= u with the library's own r[t-1]; global drift <= u/a (geometric)
